@@ -421,15 +421,16 @@ def _handle_stmts(stmts: list[ast.stmt], ctx: Context) -> sympy.Expr | None:
         elif isinstance(node, ast.Import):
             for alias in node.names:
                 name = alias.name
-                ctx.modules[name] = importlib.import_module(name)
+                ctx.modules[alias.asname or name] = importlib.import_module(name)
 
         elif isinstance(node, ast.ImportFrom):
             package = cast(str, node.module)
             module = importlib.import_module(package)
             contents = dict(inspect.getmembers(module))
             for alias in node.names:
-                name = alias.name
-                el = contents[name]
+                el = contents[alias.name]
+                # the name that is bound in the function is the alias, if there is one
+                name = alias.asname or alias.name
                 if isinstance(el, float):
                     ctx.symbols[name] = sympy.Float(el)
                 elif callable(el):
